@@ -28,11 +28,13 @@ LEVEL_TEXT = {
 }
 NOTE = ("Trusted base: CPython/numpy, vp/ref.py (exact-rational models written from the statements), the workload generators, and - for the "
         "'emulated' configuration - vp/pyxemu.py (mechanical .pyx transliteration; no Cython-generated C is ever executed in this sandbox). "
+        "Always-on monitors in every check: icontract class invariants (M1), input-immutability guard with read-only arrays (M2), icontract kernel post-conditions (M3), "
+        "branch-arm observer (M4, evidence only), cursor-progress monitor on the kernels' while-scans (M6), repeat-call monitor (M7), bounded-progress watchdog. "
         "Held on the executions of each run only; evidence lists what was observed.")
 TECH = {
- "C01": "runtime monitoring: reference-model oracle (exact rational) over generated executions",
- "C02": "runtime monitoring: reference-model oracle (exact rational) over generated executions",
- "C03": "runtime monitoring: pairwise-definition oracle + icontract kernel post-conditions",
+ "C01": "runtime monitoring: reference-model oracle (exact rational) over generated executions + cross-call history probes + cursor-progress / repeat-call monitors",
+ "C02": "runtime monitoring: reference-model oracle (exact rational) over generated executions + cross-call history probes + cursor-progress / repeat-call monitors",
+ "C03": "runtime monitoring: pairwise-definition oracle + icontract kernel post-conditions + cross-call history probes",
  "C04": "runtime monitoring: sign-model oracle + identities between real executions",
  "C05": "runtime monitoring: exact re-integration of returned profiles (cross-route identity)",
  "C06": "runtime monitoring: executable function-algebra model over real pair profiles; permutation re-execution",
@@ -42,7 +44,7 @@ TECH = {
  "C10": "runtime monitoring: query/mutate/query histories vs exact model",
  "C11": "runtime monitoring: history vs exact event-map model",
  "C12": "differential runtime monitoring: emulated .pyx (bounds-checked) vs Python twin",
- "C13": "runtime monitoring: input-immutability guard + reconcile model + dirty/clean differential",
+ "C13": "runtime monitoring: input-immutability guard + reconcile model + dirty/clean differential + in-place-edit / list-mutation histories",
  "C14": "runtime monitoring: call-form / index-selection identities between real executions",
  "C15": "runtime monitoring: monotonicity / no-op / 'auto' plumbing identities + exact RMS oracle",
  "C16": "runtime monitoring: output-level necessary condition + icontract post-condition on get_tau",
@@ -78,7 +80,7 @@ m = {
               "kind_free_text": "runtime-monitoring harness: seeded hostile workloads, exact-rational reference models, icontract contracts/invariants, input-immutability guard, .pyx emulator with bounds-checked memoryviews, per-case bounded-progress watchdog"}],
  "checks": checks,
  "not_applicable": [],
- "notes": "Every check: exit 0 held / exit 1 VIOLATION line with replay file / exit 2 INCONCLUSIVE (must-see class unobserved, contract never evaluated, emulator cannot transliterate, watchdog). known_findings.json lists repaired defects (status fixed:<commit>, suppress nothing); no open finding at present. VERIF_SEED / VERIF_TIER honoured.",
+ "notes": "Every check: exit 0 held / exit 1 VIOLATION line with replay file / exit 2 INCONCLUSIVE (must-see class unobserved, contract never evaluated, emulator cannot transliterate, watchdog). known_findings.json lists repaired defects (status fixed:<commit>, suppress nothing); no open finding at present. VERIF_SEED / VERIF_TIER honoured. /verif/seeded holds 130 confirmed property-breaking changes (118 by independent sub-agents, 12 reverse repairs) all of which the quick tier detects; /verif/mutation holds classical mutation sweeps of the kernels.",
 }
 json.dump(m, open("/verif/MANIFEST.json", "w"), indent=1)
 print("wrote MANIFEST with", len(checks), "checks")
